@@ -493,6 +493,12 @@ func (ep *ExportingProcess) dataRecSanityCheck(rec entities.Record) error {
 	if len(rec.GetBuffer()) < int(ep.templatesMap[templateID].minDataRecLen) {
 		return fmt.Errorf("process: Data Record does not pass the min required length (%d) check for template ID %d", ep.templatesMap[templateID].minDataRecLen, templateID)
 	}
+	// GetBuffer logs encoding errors and leaves the field zeroed: do not send such a record.
+	if r, ok := rec.(interface{ GetEncodeError() error }); ok {
+		if err := r.GetEncodeError(); err != nil {
+			return fmt.Errorf("process: data record for template ID %d cannot be encoded: %v", templateID, err)
+		}
+	}
 	return nil
 }
 
